@@ -49,6 +49,18 @@ def build_harness():
             lock = None
     p = subprocess.run(["cargo", "build", "--release", "--offline"], cwd=HARNESS, env=env,
                        stdout=subprocess.PIPE, stderr=subprocess.STDOUT, text=True)
+    if p.returncode == 0:
+        # run from a private copy: a later rebuild (another check, bin/seedtest) must not replace the binary under a
+        # check that is still running
+        global NVH
+        import atexit
+        private = os.path.join(SCRATCH_ROOT, "nomt-verif-nvh-%d" % os.getpid())
+        try:
+            shutil.copy2(os.path.join(HARNESS, "target", "release", "nvh"), private)
+            NVH = private
+            atexit.register(lambda: os.path.exists(private) and os.remove(private))
+        except OSError:
+            pass
     if lock:
         lock.close()
     if p.returncode != 0:
@@ -259,3 +271,10 @@ def panic_violations(pid, runs, script_by_run, violations):
         p = write_replay(pid, "panic-run%s" % rec.get("run"), dict(kind="panic", property=pid, script=sc, record=rec))
         violations.append(dict(prop=pid, replay=p, what="the store panicked outside an API call (%s) during: %s"
                                                         % (str(rec.get("msg"))[:200], str(rec.get("during"))[:120])))
+
+
+def hang_payload(what, script_by_run):
+    """replay payload of a call that did not return: the script of the run named in the watchdog's report"""
+    m = re.search(r'run (\d+)', what)
+    sc = script_by_run.get(int(m.group(1))) if m else None
+    return dict(kind="hang", what=what, script=sc)
